@@ -162,7 +162,8 @@ CHECKS: dict[str, dict[str, str]] = {
              'the behaviour that explains each recorded trace of the real operator (seeded random scenarios of profile progress + errors; every '
              'PATCH is compared with the specification\'s server object field by field, virtual time is bound by urgency). Daemons and timers '
              'hold the finalizer too: the daemon executions of C09 are validated against Spawning.tla (Trace_Spawning: every finalizer write must '
-             'be the one the specification makes, invariant FinalizerHeld in every state) and by the release clause of DaemonMonitor.tla.',
+             'be the one the specification makes, invariant FinalizerHeld in every state) and by the release clause of DaemonMonitor.tla; '
+             'daemons BESIDE change handlers on one object are part of Handling.tla itself (conf.dh; MC_Handling_mixed_q, witness mixed_w; histories of profile mixed).',
         note='one object, one operator at a time; handlers are coroutines or (every fifth history) plain functions run in virtual threads, with scripted outcomes; sub-handlers, handler timeouts and '
              'on.event results are not yet in the model; known findings are excused only through the family predicates of Handling.tla',
         ref='DESIGN.md 4/C02'),
@@ -173,7 +174,8 @@ CHECKS: dict[str, dict[str, str]] = {
              'the behaviour that explains each recorded trace of the real operator (seeded random scenarios of profile converge; every '
              'PATCH is compared with the specification\'s server object field by field, virtual time is bound by urgency). Daemons and timers '
              'hold the finalizer too: the daemon executions of C09 are validated against Spawning.tla (Trace_Spawning: every finalizer write must '
-             'be the one the specification makes, invariant FinalizerHeld in every state) and by the release clause of DaemonMonitor.tla.',
+             'be the one the specification makes, invariant FinalizerHeld in every state) and by the release clause of DaemonMonitor.tla; '
+             'daemons BESIDE change handlers on one object are part of Handling.tla itself (conf.dh; MC_Handling_mixed_q, witness mixed_w; histories of profile mixed).',
         note='one object, one operator at a time; handlers are coroutines or (every fifth history) plain functions run in virtual threads, with scripted outcomes; sub-handlers, handler timeouts and '
              'on.event results are not yet in the model; known findings are excused only through the family predicates of Handling.tla',
         ref='DESIGN.md 4/C03'),
@@ -184,7 +186,8 @@ CHECKS: dict[str, dict[str, str]] = {
              'the behaviour that explains each recorded trace of the real operator (seeded random scenarios of profile finalizer; every '
              'PATCH is compared with the specification\'s server object field by field, virtual time is bound by urgency). Daemons and timers '
              'hold the finalizer too: the daemon executions of C09 are validated against Spawning.tla (Trace_Spawning: every finalizer write must '
-             'be the one the specification makes, invariant FinalizerHeld in every state) and by the release clause of DaemonMonitor.tla.',
+             'be the one the specification makes, invariant FinalizerHeld in every state) and by the release clause of DaemonMonitor.tla; '
+             'daemons BESIDE change handlers on one object are part of Handling.tla itself (conf.dh; MC_Handling_mixed_q, witness mixed_w; histories of profile mixed).',
         note='one object, one operator at a time; handlers are coroutines or (every fifth history) plain functions run in virtual threads, with scripted outcomes; sub-handlers, handler timeouts and '
              'on.event results are not yet in the model; known findings are excused only through the family predicates of Handling.tla',
         ref='DESIGN.md 4/C06'),
@@ -195,7 +198,8 @@ CHECKS: dict[str, dict[str, str]] = {
              'the behaviour that explains each recorded trace of the real operator (seeded random scenarios of profile consistency; every '
              'PATCH is compared with the specification\'s server object field by field, virtual time is bound by urgency). Daemons and timers '
              'hold the finalizer too: the daemon executions of C09 are validated against Spawning.tla (Trace_Spawning: every finalizer write must '
-             'be the one the specification makes, invariant FinalizerHeld in every state) and by the release clause of DaemonMonitor.tla.',
+             'be the one the specification makes, invariant FinalizerHeld in every state) and by the release clause of DaemonMonitor.tla; '
+             'daemons BESIDE change handlers on one object are part of Handling.tla itself (conf.dh; MC_Handling_mixed_q, witness mixed_w; histories of profile mixed).',
         note='one object, one operator at a time; handlers are coroutines or (every fifth history) plain functions run in virtual threads, with scripted outcomes; sub-handlers, handler timeouts and '
              'on.event results are not yet in the model; known findings are excused only through the family predicates of Handling.tla',
         ref='DESIGN.md 4/C07'),
@@ -206,7 +210,8 @@ CHECKS: dict[str, dict[str, str]] = {
              'the behaviour that explains each recorded trace of the real operator (seeded random scenarios of profile errors; every '
              'PATCH is compared with the specification\'s server object field by field, virtual time is bound by urgency). Daemons and timers '
              'hold the finalizer too: the daemon executions of C09 are validated against Spawning.tla (Trace_Spawning: every finalizer write must '
-             'be the one the specification makes, invariant FinalizerHeld in every state) and by the release clause of DaemonMonitor.tla.',
+             'be the one the specification makes, invariant FinalizerHeld in every state) and by the release clause of DaemonMonitor.tla; '
+             'daemons BESIDE change handlers on one object are part of Handling.tla itself (conf.dh; MC_Handling_mixed_q, witness mixed_w; histories of profile mixed).',
         note='one object, one operator at a time; handlers are coroutines or (every fifth history) plain functions run in virtual threads, with scripted outcomes; sub-handlers, handler timeouts and '
              'on.event results are not yet in the model; known findings are excused only through the family predicates of Handling.tla',
         ref='DESIGN.md 4/C11'),
@@ -217,7 +222,8 @@ CHECKS: dict[str, dict[str, str]] = {
              'the behaviour that explains each recorded trace of the real operator (seeded random scenarios of profile resume; every '
              'PATCH is compared with the specification\'s server object field by field, virtual time is bound by urgency). Daemons and timers '
              'hold the finalizer too: the daemon executions of C09 are validated against Spawning.tla (Trace_Spawning: every finalizer write must '
-             'be the one the specification makes, invariant FinalizerHeld in every state) and by the release clause of DaemonMonitor.tla.',
+             'be the one the specification makes, invariant FinalizerHeld in every state) and by the release clause of DaemonMonitor.tla; '
+             'daemons BESIDE change handlers on one object are part of Handling.tla itself (conf.dh; MC_Handling_mixed_q, witness mixed_w; histories of profile mixed).',
         note='one object, one operator at a time; handlers are coroutines or (every fifth history) plain functions run in virtual threads, with scripted outcomes; sub-handlers, handler timeouts and '
              'on.event results are not yet in the model; known findings are excused only through the family predicates of Handling.tla',
         ref='DESIGN.md 4/C14'),
